@@ -35,7 +35,7 @@ DECIDING = [
 ]
 BRANCHES = ["check_parity_of_vector:no-marked-qubits", "check_parity_of_vector:marked",
             "Measurements.get_expectation_values:pair-correlation"]
-BUDGET = {"quick": (4, 30, 7000), "thorough": (16, 120, 400000)}
+BUDGET = {"quick": (4, 30, 6000), "thorough": (16, 120, 400000)}
 
 _LIB = {}
 
